@@ -99,6 +99,10 @@ func TestRobust(t *testing.T) {
 	rapid.Check(t, func(rt *rapid.T) {
 		g := gen.Program(rt, cfg)
 		pk.Eval()
+		if tr, ok := px.Model(g); !ok && px.TooBig(tr) {
+			pk.Discard("unbounded-growth")
+			return
+		}
 		c := Case{ProgCase: px.FromGenerated(g)}
 		if rapid.IntRange(0, 99).Draw(rt, "tightLimits") < 40 {
 			c.Limits = sb.Limits{
